@@ -82,6 +82,13 @@ Theorem C37_failed_option_change_is_noop : forall openable f evs o,
 Proof. exact reachable_failed_change_is_noop. Qed.
 Print Assumptions C37_failed_option_change_is_noop.
 
+(* ... and so does ONE update that carries a new save_stream_file together with an unparsable
+   save_stream_filter: the filter is validated before the file is touched *)
+Theorem C37_bad_filter_update_is_noop : forall openable f evs o,
+  let s := run openable (init_state f) evs in set_option_bad_filter openable o s = (s, true).
+Proof. exact reachable_bad_filter_is_noop. Qed.
+Print Assumptions C37_bad_filter_update_is_noop.
+
 (* in every reachable state, a finished flow is appended to the current stream file and nothing else changes *)
 Theorem C37_finish_appends_only : forall openable f evs r,
   let s := run openable (init_state f) evs in
